@@ -55,14 +55,17 @@ V_ENSURES(zck->comp.type != ZCK_COMP_ZSTD || __CPROVER_return_value || (zck->com
  *  - the running chunk hash (when watched by the ghost model) has been fed exactly data_loc bytes
  *  - the file position is the next unread stored byte of the current chunk (C14/C09)            */
 #define CHUNK_WF1(z, c) (__CPROVER_rw_ok((c), sizeof(zckChunk)) && (c)->zck == (z) && (c)->digest_size == (z)->chunk_hash_type.digest_size && (c)->digest != NULL && __CPROVER_r_ok((c)->digest, (c)->digest_size))
-#define RD_N1(z) ((z)->index.first)
-#define RD_N2(z) ((z)->index.first->next)
-#define RD_N3(z) ((z)->index.first->next->next)
+/* ghost names of the (at most three) list nodes, set by the harness: keeps the contract expressions
+ * small (CBMC's dereferencing cost grows steeply with chains like first->next->next->field) */
+#define RD_N1(z) g_n1
+#define RD_N2(z) g_n2
+#define RD_N3(z) g_n3
 #define RD_LIST_WF(z) (SPEC_HASH_VALID((z)->chunk_hash_type.type) && (z)->chunk_hash_type.digest_size == SPEC_DIGEST_SIZE((z)->chunk_hash_type.type) && \
-    RD_N1(z) != NULL && CHUNK_WF1(z, RD_N1(z)) && RD_N1(z)->start == 0 && \
-    (RD_N2(z) == NULL || (CHUNK_WF1(z, RD_N2(z)) && RD_N2(z)->start == RD_N1(z)->start + RD_N1(z)->comp_length && \
-     (RD_N3(z) == NULL || (CHUNK_WF1(z, RD_N3(z)) && RD_N3(z)->start == RD_N2(z)->start + RD_N2(z)->comp_length && RD_N3(z)->next == NULL)))))
-#define RD_IN_LIST(z, p) ((p) == NULL || (p) == RD_N1(z) || (RD_N2(z) != NULL && ((p) == RD_N2(z) || (RD_N3(z) != NULL && (p) == RD_N3(z)))))
+    g_n1 != NULL && (z)->index.first == g_n1 && CHUNK_WF1(z, g_n1) && g_n1->start == 0 && g_n1->next == g_n2 && \
+    (g_n2 == NULL ? g_n3 == NULL : (CHUNK_WF1(z, g_n2) && g_n2->start == g_n1->start + g_n1->comp_length && g_n2->next == g_n3 && \
+     (g_n3 == NULL || (CHUNK_WF1(z, g_n3) && g_n3->start == g_n2->start + g_n2->comp_length && g_n3->next == NULL)))))
+#define RD_IN_LIST(z, p) ((p) == NULL || (p) == g_n1 || (p) == g_n2 || (p) == g_n3)
+#define RD_VALID_TARGETS(zck) g_n1 != NULL: g_n1->valid; g_n2 != NULL: g_n2->valid; g_n3 != NULL: g_n3->valid
 #define RD_HOOKS(z) ((z)->comp.decompress == verif_decompress && (z)->comp.end_dchunk == verif_end_dchunk && ((z)->comp.type == ZCK_COMP_NONE || (z)->comp.type == ZCK_COMP_ZSTD))
 #define RD_CUR(z) ((z)->comp.data_idx)
 #define RD_STATE_WF(z) (RD_IN_LIST(z, RD_CUR(z)) && DC_WF(&(z)->comp) && DATA_WF(&(z)->comp) && (z)->comp.data_size <= (z)->comp.data_loc && \
@@ -110,7 +113,7 @@ V_ENSURES(!__CPROVER_return_value || __CPROVER_is_fresh(zck->comp.data, zck->com
 
 bool import_dict(zckCtx *zck)
 V_REQUIRES(__CPROVER_rw_ok(zck, sizeof(*zck)) && RD_WF(zck))
-V_ASSIGNS(zck->comp, zck->check_chunk_hash.type, zck->check_chunk_hash.ctx, zck->error_state, g_hu_total, g_hu_seen, g_hu_ptr, g_hu_final, g_hu_inits, g_fin_val, g_fin_total, g_fin_seen, g_fin_ptr, g_fpos, g_rd_bytes, g_io_failed, g_last_read, g_watch_seen, g_watch_val; RD_N1(zck) != NULL: RD_N1(zck)->valid; RD_N1(zck) != NULL && RD_N2(zck) != NULL: RD_N2(zck)->valid; RD_N1(zck) != NULL && RD_N2(zck) != NULL && RD_N3(zck) != NULL: RD_N3(zck)->valid)
+V_ASSIGNS(zck->comp, zck->check_chunk_hash.type, zck->check_chunk_hash.ctx, zck->error_state, g_hu_total, g_hu_seen, g_hu_ptr, g_hu_final, g_hu_inits, g_fin_val, g_fin_total, g_fin_seen, g_fin_ptr, g_fpos, g_rd_bytes, g_io_failed, g_last_read, g_watch_seen, g_watch_val; RD_VALID_TARGETS(zck))
 V_ENSURES(!__CPROVER_return_value || (V_OLD(zck->error_state) == 0 && zck->error_state == 0)) /*@C12.import_dict.never_succeeds_with_an_error*/
 V_ENSURES(!__CPROVER_return_value || RD_N1(zck)->length == 0 || (zck->comp.dict != NULL && zck->comp.dict_size == RD_N1(zck)->length && zck->comp.started != 0)) /*@C14.import_dict.dictionary_loaded*/
 V_ENSURES(!__CPROVER_return_value || (RD_HOOKS(zck) && RD_STATE_WF(zck))) /*@C14.import_dict.keeps_reader_invariant*/
@@ -121,7 +124,6 @@ V_ENSURES(!__CPROVER_return_value || g_hu_hash != &zck->check_full_hash || (g_hu
  * bytes read from the descriptor in this call (unless the file carries the uncompressed-source flag, for
  * which the format defines no data checksum); the running chunk hash is fed exactly the stored bytes
  * of the current chunk (part of RD_WF).  C15/C12: no success value once an error arose. */
-#define RD_VALID_TARGETS(zck) RD_N1(zck) != NULL: RD_N1(zck)->valid; RD_N1(zck) != NULL && RD_N2(zck) != NULL: RD_N2(zck)->valid; RD_N1(zck) != NULL && RD_N2(zck) != NULL && RD_N3(zck) != NULL: RD_N3(zck)->valid
 ssize_t comp_read(zckCtx *zck, char *dst, size_t dst_size, bool use_dict)
 V_REQUIRES(__CPROVER_rw_ok(zck, sizeof(*zck)) && RD_WF(zck))
 V_REQUIRES(dst == NULL || dst_size == 0 || __CPROVER_w_ok(dst, dst_size))
